@@ -362,6 +362,23 @@ var arpa = rapid.Custom(func(t *rapid.T) string {
 		return FlipCaseBits(t, s)
 	case 2:
 		return WrapACE(t, s)
+	case 3:
+		// One dot (often the one in front of the root suffix) replaced by
+		// another byte: the length and every other position stay right.
+		var dots []int
+		for i := 0; i < len(s); i++ {
+			if s[i] == '.' {
+				dots = append(dots, i)
+			}
+		}
+		if len(dots) == 0 {
+			return s
+		}
+		i := dots[rapid.IntRange(0, len(dots)-1).Draw(t, "dot")]
+		if len(dots) >= 2 && rapid.Bool().Draw(t, "rootdot") {
+			i = dots[len(dots)-2] // the dot between the labels and "in-addr.arpa" / "ip6.arpa"
+		}
+		return s[:i] + rapid.SampledFrom([]string{"x", "0", "a", "-", "_", ":", "f", "\x00"}).Draw(t, "nodot") + s[i+1:]
 	}
 	return s
 })
@@ -750,10 +767,12 @@ var (
 	urlUser   = rapid.SampledFrom([]string{"", "user", "user:pass", "user:", ":pass", "u%40x:p%3Aq", "xxxxx:xxxxx", "us er", "é:世", "a:b:c", "%zz"})
 	urlHost   = rapid.SampledFrom([]string{"", "host", "example.com", "EXAMPLE.com", "1.2.3.4", "[::1]", "[fe80::1%25eth0]", "[::1", "host:80", "host:", "[::1]:443", "host:port", "h ost", "é.com", "a%20b", "a%zz"})
 	urlSeg    = rapid.SampledFrom([]string{"", "a", "b", "%2F", "%20", " ", ";", "@", "é", "世", "..", ".", "a b", "%zz", "%", ":", "*", "\\", "\"", "<", ">", "'", "|", "^", "`", "{", "}", " ", "\x7f", "\x00"})
-	urlQ      = rapid.SampledFrom([]string{"", "x=1", "x=1&y=2", "y=<2>", "q=\"a\"", "a='b'", "a=\\", "a=+", "é=世", "a= ", "a=%26", "a=%zz", "&&", "=", "a=b c", "a=#"})
+	urlQ      = rapid.SampledFrom([]string{"", "x=1", "x=1&y=2", "y=<2>", "q=\"a\"", "a='b'", "a=\\", "a=+", "é=世", "a= ", "a=%26", "a=%zz", "&&", "=", "a=b c", "a=#",
+		// texts copied out of JSON / JS / HTML sources without decoding, astral and tag characters
+		"next=/a\\u0026b=1", "x=\\u003cb\\u003e", "a=\\\\", "a=\\\"", "q=&amp;", "q=\\n", "t=\U000E0067\U000E007F", "p=\U000F0001", "e=\U0001F600", "n=\u2028"})
 	urlFrag   = rapid.SampledFrom([]string{"", "f", "a b", "%41", "<x>", "\"", "é", "%zz", "a#b"})
 	urlPiece  = rapid.OneOf(
-		rapid.SampledFrom([]string{"http", "https", "grpc", "file", "mailto", ":", "//", "/", "?", "#", "@", "user", "pass", "host", "example.com", "[::1]", "[fe80::1%25eth0]", "1.2.3.4", ":80", ":", "%2F", "%20", "%zz", "%", "&", "=", "<", ">", "\"", "'", "\\", " ", "+", ";", "é", "世", " ", "a", "b", "..", ".", "*", "|", "^", "`", "{", "}", "~", "!", "$", ","}),
+		rapid.SampledFrom([]string{"http", "https", "grpc", "file", "mailto", ":", "//", "/", "?", "#", "@", "user", "pass", "host", "example.com", "[::1]", "[fe80::1%25eth0]", "1.2.3.4", ":80", ":", "%2F", "%20", "%zz", "%", "&", "=", "<", ">", "\"", "'", "\\", " ", "+", ";", "é", "世", " ", "a", "b", "..", ".", "*", "|", "^", "`", "{", "}", "~", "!", "$", ",", "\\u0026", "\\u003c", "\\u003e", "\\\\", "\U000E0067", "\U0010FFFD"}),
 		rapid.StringN(0, 3, -1),
 	)
 	urlEditAlphabet = []string{":", "/", "?", "#", "@", "%", "&", "<", ">", "\"", "\\", " ", "é", "[", "]", "a"}
